@@ -20,6 +20,11 @@ CHECKS = {
         note="quick tier takes a fixed arithmetic sub-sequence of the two largest families (reported as a cap)",
         tech="differential check (export / import / export) over a bounded-exhaustive corpus of packages produced by the implementation",
         ref="DESIGN.md 2/C11"),
+    "C12": dict(
+        text="deciding leg: for every design of the corpus (design families incl. one-object-feeds-many-ports designs, the DAGs, the example scripts) all executions with at most 1 deviation (2 thorough) from insertion order at every point where the library iterates a hash set of >=2 elements are run under a controllable set class bound to the name `set` of every hdl21 module; package bytes and spice / spectre / verilog text must equal the 0-deviation run. Conformance leg: the corpus is re-run in 5 (8) real sub-processes with different PYTHONHASHSEED and allocation noise, which must agree with each other and with the explored runs (else the seam is reported incomplete)",
+        note="owns set-iteration order only; the sub-process leg is sampling and only validates the seam; choice points over >4 elements use transpositions + reversal",
+        tech="iterative deviation-bounded exhaustive exploration of iteration orders (stateless model checking of the implementation under a controlled nondeterminism source) plus replay in real processes",
+        ref="DESIGN.md 2/C12"),
     "C13": dict(
         text="every primitive x parameter field x value of a typed alphabet (prefix x mantissa grid, ints, floats, Decimals, strings, literals, enums, None), plus external modules and to_scalar, exported on the real library; the ParamValue is parsed with unlimited precision and compared with the exact input",
         note="floats may appear as shortest-repr decimal or exact binary value; plain ints beyond 64 bits and ambiguous numeric spellings are outside the alphabet",
